@@ -24,11 +24,31 @@ Definition syms_with_sep (l : list (option ascii)) (sepc : ascii) : list string 
 Definition escape_path_section (section : string) (sepc : ascii) : string :=
   ensure_escaped section (syms_with_sep g_section_escape_syms sepc).
 
+(* SearchTerms.__str__ (after the two "fix:" commits): a regular expression is
+   written between the first candidate delimiter that does not occur in it
+   (the old "/"-with-"\/" rendering remains the fallback); any other term gets
+   its unescaped spaces and search operator symbols back-slashed. *)
+Definition regex_delims : list ascii :=
+  ["/"; "|"; "#"; "@"; ","; ";"; ":"; "_"; "-"; "+"]%char.
+
+Fixpoint pick_delim (l : list ascii) (term : string) : option ascii :=
+  match l with
+  | [] => None
+  | d :: r => if str_in d term then pick_delim r term else Some d
+  end.
+
+Definition term_escape_syms : list string :=
+  [" "; "="; "^"; "$"; "%"; "!"; ">"; "<"; "~"].
+
 Definition search_str (inv : bool) (m : smethod) (attr term : string) : string :=
   let safe :=
     match m with
-    | MRegex => "/" ++ replace_all "/" "\/" term ++ "/"
-    | _ => join "\ " (map (replace_all " " "\ ") (split_on "\ " term))
+    | MRegex =>
+        match pick_delim regex_delims term with
+        | Some d => str1 d ++ term ++ str1 d
+        | None => "/" ++ replace_all "/" "\/" term ++ "/"
+        end
+    | _ => ensure_escaped term term_escape_syms
     end in
   "[" ++ attr ++ (if inv then "!" else "") ++ method_str m ++ safe ++ "]".
 
@@ -85,3 +105,204 @@ Definition path_str (m : sepmode) (text : string) : outcome string :=
   let orig := normalize_original text in
   do sg <- parse m false text;
   Ok (stringify (effective_sep m orig) sg).
+
+(* ---- YAMLPath objects: __eq__, append, __add__, pop, strip_path_prefix ----
+   (yamlpath.py: __init__ 39-63, __str__ 65-72, __eq__ 83-107, __add__ 113-116,
+   append 118-137, pop 139-172, original 179-214, separator 216-253,
+   escaped/unescaped 291-327, strip_path_prefix 953-978.)
+   An object is its five fields.  An empty deque is falsy, so an empty parse
+   is never cached; the separator setter re-stringifies but keeps the parsed
+   caches; every getter that infers the separator stores it.  Each method is a
+   function from the object to (outcome of the call, the object afterwards):
+   the mutations made before an exception is raised are kept. *)
+Record ypath := mkyp {
+  y_orig : string;            (* _original *)
+  y_sep : option sep;         (* _separator; None = AUTO *)
+  y_unesc : list seg;         (* _unescaped *)
+  y_esc : list seg;           (* _escaped *)
+  y_strd : string             (* _stringified *)
+}.
+
+(* _parse_path reading self.separator = es and self.original = orig *)
+Definition parse_es (es : option sep) (strip : bool) (orig : string) : outcome (list seg) :=
+  match orig with
+  | EmptyString => Ok []
+  | _ =>
+      let pos := match es with
+                 | Some Slash => if 1 <? String.length orig then 1 else 0
+                 | _ => 0
+                 end in
+      match nth_char pos orig with
+      | None => Raise (PyCrash IndexError)
+      | Some c0 =>
+          do s <- run strip (sepc_of es) (init_pst (Ascii.eqb c0 "&"%char)) orig;
+          finish s
+      end
+  end.
+
+(* the `original` setter *)
+Definition y_set_original (v : string) (p : ypath) : ypath :=
+  mkyp (normalize_original v) None [] [] "".
+
+(* YAMLPath(text) / YAMLPath(other_path) (which copies other.original) *)
+Definition y_new (text : string) : ypath :=
+  y_set_original text (mkyp "" None [] [] "").
+
+(* the `separator` getter *)
+Definition y_separator (p : ypath) : option sep * ypath :=
+  match y_sep p with
+  | None => let s := infer_sep (y_orig p) in
+            (s, mkyp (y_orig p) s (y_unesc p) (y_esc p) (y_strd p))
+  | Some s => (Some s, p)
+  end.
+
+Definition seglist_nonempty (l : list seg) : bool :=
+  match l with [] => false | _ => true end.
+
+(* the `unescaped` / `escaped` getters *)
+Definition y_unescaped (p : ypath) : outcome (list seg) * ypath :=
+  if seglist_nonempty (y_unesc p) then (Ok (y_unesc p), p)
+  else
+    let '(es, p1) := y_separator p in
+    match parse_es es false (y_orig p1) with
+    | Ok l => (Ok l, mkyp (y_orig p1) (y_sep p1) l (y_esc p1) (y_strd p1))
+    | Raise e => (Raise e, p1)
+    | OutOfFuel => (OutOfFuel, p1)
+    end.
+
+Definition y_escaped (p : ypath) : outcome (list seg) * ypath :=
+  if seglist_nonempty (y_esc p) then (Ok (y_esc p), p)
+  else
+    let '(es, p1) := y_separator p in
+    match parse_es es true (y_orig p1) with
+    | Ok l => (Ok l, mkyp (y_orig p1) (y_sep p1) (y_unesc p1) l (y_strd p1))
+    | Raise e => (Raise e, p1)
+    | OutOfFuel => (OutOfFuel, p1)
+    end.
+
+(* __str__ *)
+Definition y_str (p : ypath) : outcome string * ypath :=
+  if nonempty (y_strd p) then (Ok (y_strd p), p)
+  else
+    let '(r, p1) := y_unescaped p in
+    match r with
+    | Ok u =>
+        let '(es, p2) := y_separator p1 in
+        let s := stringify es u in
+        (Ok s, mkyp (y_orig p2) (y_sep p2) (y_unesc p2) (y_esc p2) s)
+    | Raise e => (Raise e, p1)
+    | OutOfFuel => (OutOfFuel, p1)
+    end.
+
+Definition sepopt_eqb (a b : option sep) : bool :=
+  match a, b with
+  | None, None | Some Dot, Some Dot | Some Slash, Some Slash => true
+  | _, _ => false
+  end.
+
+(* the `separator` setter *)
+Definition y_set_separator (v : option sep) (p : ypath) : outcome unit * ypath :=
+  if sepopt_eqb v (y_sep p) then (Ok tt, p)
+  else
+    let '(r, p1) := y_unescaped p in
+    match r with
+    | Ok u => (Ok tt, mkyp (y_orig p1) v (y_unesc p1) (y_esc p1) (stringify v u))
+    | Raise e => (Raise e, p1)
+    | OutOfFuel => (OutOfFuel, p1)
+    end.
+
+(* the comparison string of __eq__: a copy, separator := FSLASH, str() *)
+Definition y_cmp_string (orig : string) : outcome string :=
+  let '(r, p1) := y_set_separator (Some Slash) (y_new orig) in
+  match r with
+  | Ok _ => fst (y_str p1)
+  | Raise e => Raise e
+  | OutOfFuel => OutOfFuel
+  end.
+
+(* __eq__ against a YAMLPath or str whose text is [other]; neither operand is
+   modified (both are copied first) *)
+Definition y_eq (p : ypath) (other : string) : outcome bool :=
+  do a <- y_cmp_string (y_orig p);
+  do b <- y_cmp_string other;
+  Ok (String.eqb a b).
+
+(* append(segment) *)
+Definition y_append (segment : string) (p : ypath) : ypath :=
+  let '(es, p1) := y_separator p in
+  let sepc := match es with None => "/"%char | Some s => sep_char s end in
+  if String.length (y_orig p1) <? 1 then y_set_original segment p1
+  else y_set_original (y_orig p1 ++ str1 sepc ++ segment) p1.
+
+(* __add__: a fresh copy, appended to *)
+Definition y_add (p : ypath) (segment : string) : ypath :=
+  y_append segment (y_new (y_orig p)).
+
+Definition str_len := String.length.
+
+(* pop() *)
+Definition y_pop (p : ypath) : outcome seg * ypath :=
+  let '(r, p1) := y_unescaped p in
+  match r with
+  | Ok segments =>
+      match rev segments with
+      | [] => let '(_, p2) := y_str p1 in (Raise (YPE Generic), p2)
+      | popped :: _ =>
+          let '(es, p2) := y_separator p1 in
+          let removable := stringify es [popped] in
+          let prefixed := if sepopt_eqb es (Some Slash) then removable   (* "fix:" commit *)
+                          else str1 (sepc_of es) ++ removable in
+          let now := y_orig p2 in
+          let p3 :=
+            if ends_with prefixed now
+            then y_set_original (take (str_len now - str_len prefixed) now) p2
+            else if ends_with removable now
+            then y_set_original (take (str_len now - str_len removable) now) p2
+            else if sepopt_eqb es (Some Slash) && ends_with (drop 1 removable) now
+            then y_set_original (take (str_len now - str_len removable + 1) now) p2
+            else (* after the "fix:" commit: rebuild from the remaining segments *)
+              y_set_original (stringify es (removelast segments)) p2 in
+          (Ok popped, p3)
+      end
+  | Raise e => (Raise e, p1)
+  | OutOfFuel => (OutOfFuel, p1)
+  end.
+
+(* strip_path_prefix(path, prefix) for a prefix that is not None: the result
+   (None = the very object `path` is returned) and both objects afterwards *)
+Definition y_strip_prefix (path prefix : ypath) : outcome (option ypath) * ypath * ypath :=
+  let '(r0, prefix1) := y_set_separator (Some Slash) prefix in
+  match r0 with
+  | Raise e => (Raise e, path, prefix1)
+  | OutOfFuel => (OutOfFuel, path, prefix1)
+  | Ok _ =>
+      let '(r1, prefix2) := y_str prefix1 in
+      match r1 with
+      | Raise e => (Raise e, path, prefix2)
+      | OutOfFuel => (OutOfFuel, path, prefix2)
+      | Ok ps0 =>
+          if String.eqb ps0 "/" then (Ok None, path, prefix2)
+          else
+            let '(r2, path1) := y_set_separator (Some Slash) path in
+            match r2 with
+            | Raise e => (Raise e, path1, prefix2)
+            | OutOfFuel => (OutOfFuel, path1, prefix2)
+            | Ok _ =>
+                let '(r3, prefix3) := y_str prefix2 in
+                match r3 with
+                | Raise e => (Raise e, path1, prefix3)
+                | OutOfFuel => (OutOfFuel, path1, prefix3)
+                | Ok prefix_str =>
+                    let '(r4, path2) := y_str path1 in
+                    match r4 with
+                    | Raise e => (Raise e, path2, prefix3)
+                    | OutOfFuel => (OutOfFuel, path2, prefix3)
+                    | Ok path_str0 =>
+                        if starts_with prefix_str path_str0
+                        then (Ok (Some (y_new (drop (str_len prefix_str) path_str0))), path2, prefix3)
+                        else (Ok None, path2, prefix3)
+                    end
+                end
+            end
+      end
+  end.
